@@ -1604,6 +1604,8 @@ class Interp:
                 got = self.iter_values(a0, site)  # list(it) / tuple(it) / sorted(it) consume it
                 return Lst(got) if b != "tuple" else Tup(got)
             if isinstance(a0, (Tup, Lst)):
+                if b == "iter" and not getattr(a0, "open", False):
+                    return OneShot(list(a0.items))  # an iterator over the sequence's items: consumed as it is read
                 return Lst(a0.items, open=getattr(a0, "open", False)) if b != "tuple" else Tup(a0.items)
             if isinstance(a0, Seq):
                 return Seq(a0.elem, b, src=a0.src)
@@ -1704,6 +1706,14 @@ class Interp:
             return deco
         if b == "next" and args:
             src = args[0]
+            if isinstance(src, OneShot):
+                # an iterator object: next() hands out its items one by one, then the default / StopIteration
+                if src.items and not src.consumed:
+                    return src.items.pop(0)
+                src.consumed = True
+                if len(args) > 1:
+                    return args[1]
+                raise _Raise(ExcV("builtins.StopIteration"))
             if isinstance(src, (Lst, Tup)) and not getattr(src, "open", False):
                 if src.items:
                     return src.items[0]
